@@ -49,7 +49,19 @@ pub fn exec_inflate_proto(s: &Script, st: &mut Stats) -> Result<RunInfo, Violati
         // zeroing policy: it must behave like a new one (the MinReset policy has a known finding, see C18)
         let pre = s.blob("prelude_stream");
         let mut tiny = [0u8; 3];
-        let _ = inflate(&mut state, pre, &mut tiny[..(s.c("prelude") as usize % 4)], MZFlush::None);
+        let r0 = inflate(&mut state, pre, &mut tiny[..(s.c("prelude") as usize % 4)], MZFlush::None);
+        if s.c("prelude") >= 4 {
+            // go on for a while (an error in a later block of the earlier stream is reached), then abandon it
+            let mut pos = r0.bytes_consumed.min(pre.len());
+            let mut scratch = vec![0u8; 700];
+            for _ in 0..40 {
+                let r = inflate(&mut state, &pre[pos..], &mut scratch, MZFlush::None);
+                pos = (pos + r.bytes_consumed).min(pre.len());
+                if r.status != Ok(MZStatus::Ok) {
+                    break;
+                }
+            }
+        }
         match s.c_or("prelude_policy", if s.c("prelude") % 2 == 0 { 0 } else { 1 }) {
             1 => state.reset_as(miniz_oxide::inflate::stream::ZeroReset),
             // MinReset keeps the old window (known finding of C18 for corrupt streams that read before their
